@@ -34,6 +34,20 @@ def main(argv=None):
     jobs = prop.jobs(a.tier)
     if a.only:
         jobs = [j for j in jobs if a.only in j.name()]
+    # keep the worst-case wall time of a tier within its target (jobs that exhaust finish earlier anyway):
+    # budgets are scaled down proportionally when the greedy 16-worker schedule of the full budgets would exceed it
+    target_s = 60.0 * float(os.environ.get("VERIF_WALL_MIN", "30" if a.tier == "thorough" else "4"))
+    xh_jobs = [j for j in jobs if j.kind == "xh"]
+    if xh_jobs:
+        loads = [0.0] * max(1, min(a.workers, 16))
+        for b in sorted((j.budget_s for j in xh_jobs), reverse=True):
+            k = loads.index(min(loads))
+            loads[k] += b
+        worst = max(loads)
+        if worst > target_s:
+            f = target_s / worst
+            for j in xh_jobs:
+                j.budget_s = max(45.0, j.budget_s * f)
     if seed:
         import random
         random.Random(seed).shuffle(jobs)  # order only; the explored space does not depend on the seed
